@@ -433,7 +433,7 @@ main(int argc, char *argv[])
 		} else if (strcmp(arg, "-emit-qbe") == 0) {
 			last = COMPILE;
 		} else if (strcmp(arg, "-include") == 0 || strcmp(arg, "-idirafter") == 0 || strcmp(arg, "-isystem") == 0 || strcmp(arg, "-iquote") == 0) {
-			if (!--argc)
+			if (!argv[1])
 				usage(NULL);
 			arrayaddptr(&stages[PREPROCESS].cmd, arg);
 			arrayaddptr(&stages[PREPROCESS].cmd, *++argv);
@@ -487,7 +487,7 @@ main(int argc, char *argv[])
 				} else if (strcmp(arg, "-MD") == 0 || strcmp(arg, "-MMD") == 0) {
 					arrayaddptr(&stages[PREPROCESS].cmd, arg);
 				} else if (strcmp(arg, "-MT") == 0 || strcmp(arg, "-MF") == 0) {
-					if (!--argc)
+					if (!argv[1])
 						usage(NULL);
 					arrayaddptr(&stages[PREPROCESS].cmd, arg);
 					arrayaddptr(&stages[PREPROCESS].cmd, *++argv);
